@@ -21,6 +21,9 @@ type C11Case struct {
 	Big int `json:"big,omitempty"`
 	// BigOneLine: the filler has no line feeds at all (one line longer than any line buffer)
 	BigOneLine bool `json:"bigOneLine,omitempty"`
+	// ZeroValue: every empty file of the case is a zero-value text.File (not made by a constructor):
+	// a valid empty file without a name
+	ZeroValue bool `json:"zeroValue,omitempty"`
 }
 
 func (c *C11Case) Describe() string { return fmt.Sprintf("files=%q beyond=%d", c.Files, c.Beyond) }
@@ -40,6 +43,7 @@ func genC11(t *rapid.T) interface{} {
 		c.Files = append(c.Files, b)
 	}
 	c.ViaDisk = rapid.IntRange(0, 7).Draw(t, "viaDisk") == 5
+	c.ZeroValue = rapid.IntRange(0, 3).Draw(t, "zeroValue") == 0
 	if nf > 0 && rapid.IntRange(0, 40).Draw(t, "big") == 9 {
 		k := rapid.IntRange(12, 17).Draw(t, "bigExp")
 		c.Big = 1<<uint(k) - 1 + rapid.SampledFrom([]int{0, 0, 0, -1, 1}).Draw(t, "bigOff")
@@ -51,6 +55,14 @@ func genC11(t *rapid.T) interface{} {
 		c.Order = append(c.Order, rapid.IntRange(0, 60).Draw(t, "lookup"))
 	}
 	return c
+}
+
+// locText renders a location the way the library does: the file name is left out when it is empty.
+func locText(name string, line, col int) string {
+	if name == "" {
+		return fmt.Sprintf("%d:%d", line, col)
+	}
+	return fmt.Sprintf("%s:%d:%d", name, line, col)
 }
 
 func nearPowerOfTwo(o int) bool {
@@ -99,6 +111,10 @@ func checkC11(ci interface{}, st *Stats) (err error) {
 			}
 			f, name = df, dn
 		}
+		if c.ZeroValue && len(raw) == 0 && !(i == 0 && c.Big > 0) {
+			f, name = &text.File{}, ""
+			st.Class("zero-value File in the set")
+		}
 		names = append(names, name)
 		files = append(files, f)
 		norm = append(norm, normCRLF(raw))
@@ -120,7 +136,7 @@ func checkC11(ci interface{}, st *Stats) (err error) {
 		var sofar []int
 		for i, f := range pf {
 			for j, bj := range sofar {
-				if got, want := fs.Position(parsley.Pos(bj)).String(), names[j]+":1:1"; got != want {
+				if got, want := fs.Position(parsley.Pos(bj)).String(), locText(names[j], 1, 1); got != want {
 					return fmt.Errorf("after adding %d files, the first byte of file %d (position %d) renders as %s, want %s", i, j, bj, got, want)
 				}
 			}
@@ -174,7 +190,7 @@ func checkC11(ci interface{}, st *Stats) (err error) {
 				continue // long files: both ends, every 997th offset and the surroundings of every 2^k
 			}
 			l, col := lineCol(string(norm[i]), o)
-			want := fmt.Sprintf("%s:%d:%d", names[i], l, col)
+			want := locText(names[i], l, col)
 			gp := bases[i] + o
 			p1 := fs.Position(parsley.Pos(gp))
 			if got := p1.String(); got != want {
@@ -217,7 +233,7 @@ func checkC11(ci interface{}, st *Stats) (err error) {
 			for i := range files {
 				if gp >= bases[i] && gp <= bases[i]+len(norm[i]) {
 					l, col := lineCol(string(norm[i]), gp-bases[i])
-					want = fmt.Sprintf("%s:%d:%d", names[i], l, col)
+					want = locText(names[i], l, col)
 					if got := files[i].Position(gp - bases[i]).String(); got != want {
 						return fmt.Errorf("file %d: Position(%d) looked up out of order = %s, want %s", i, gp-bases[i], got, want)
 					}
@@ -232,7 +248,7 @@ func checkC11(ci interface{}, st *Stats) (err error) {
 	for i := range files {
 		pos := parsley.Pos(bases[i] + len(norm[i])/2)
 		l, col := lineCol(string(norm[i]), len(norm[i])/2)
-		want := fmt.Sprintf("boom at %s:%d:%d", names[i], l, col)
+		want := "boom at " + locText(names[i], l, col)
 		if got := fs.ErrorWithPosition(parsley.NewErrorf(pos, "boom")).Error(); got != want {
 			return fmt.Errorf("ErrorWithPosition at %d = %q, want %q", pos, got, want)
 		}
